@@ -37,9 +37,15 @@
 #define IS_EMPTY_STR(s)     ((*s == '\0') ? true : false)
 #define ENDING_CHAR(s)      (*(s + strlen(s) - 1))
 
+#if defined(QLIBC_VERIF) && defined(QLIBC_VERIF_VSPRINTF_INITSIZE)
+/* verification hook: lets a bounded-model-checking harness scale the first buffer */
+#define DYNAMIC_VSPRINTF_INITSIZE (QLIBC_VERIF_VSPRINTF_INITSIZE)
+#else
+#define DYNAMIC_VSPRINTF_INITSIZE (1024)
+#endif
 #define DYNAMIC_VSPRINTF(s, f) do {                                     \
         size_t _strsize;                                                \
-        for (_strsize = 1024; ; _strsize *= 2) {                        \
+        for (_strsize = DYNAMIC_VSPRINTF_INITSIZE; ; _strsize *= 2) {   \
             s = (char*)malloc(_strsize);                                \
             if (s == NULL) {                                            \
                 DEBUG("DYNAMIC_VSPRINTF(): can't allocate memory.");    \
